@@ -442,6 +442,7 @@ type svWorkload struct {
 	wantDt    time.Duration
 	modShared bool
 	lastBatchPaused, lastBatchStarted bool
+	oneShotUpdated                    bool
 }
 
 func newServiceWorkload() Workload {
@@ -1078,6 +1079,18 @@ func (w *svWorkload) script(v *svSnap) []rig.Tx {
 		}
 		return []rig.Tx{w.txCtxOp(c0, op, id, "", nil)}
 	}
+	// the scripted one-shot context of c1: while its only batch is in flight its consumer gives it a frequency and an
+	// unlimited total (accepted by the update handler); it must still be removed after that one batch
+	if !w.oneShotUpdated {
+		if id := findCtx(c1, "", func(rc svtypes.RequestContext) bool {
+			return !rc.Repeated && rc.BatchCounter == 1 && rc.BatchState == svtypes.BATCHRUNNING && rc.State == svtypes.RUNNING
+		}); id != "" {
+			w.oneShotUpdated = true
+			rc := v.Ctxs[id]
+			txs = append(txs, w.txCtxOp(c1, "update", id, "", &svtypes.MsgUpdateRequestContext{RepeatedFrequency: uint64(rc.Timeout), RepeatedTotal: -1}))
+			w.run.Count("one-shot-updated-mid-batch", 1)
+		}
+	}
 	// the context with two batches in total: while its second (last) batch is in flight with its request unanswered
 	// (scripted contexts leave every batch with counter%3 == 2 unanswered), the consumer pauses it and starts it again
 	if id := findCtx(c1, "", func(rc svtypes.RequestContext) bool {
@@ -1394,6 +1407,10 @@ func (w *svWorkload) intentAt(v *svSnap, ix int) (rig.Tx, bool) {
 				upd.Timeout = int64(1 + rng.Intn(int(rc.RepeatedFrequency)+1))
 			case 2:
 				upd.RepeatedTotal = pick(rng, int64(-1), int64(rc.BatchCounter), int64(rc.BatchCounter)+1, int64(rc.BatchCounter)+3)
+				if rng.Intn(2) == 0 {
+					// frequency and total together (on a one-shot context this must not turn it into a repeating one)
+					upd.RepeatedFrequency = uint64(rc.Timeout) + uint64(rng.Intn(3))
+				}
 			case 3:
 				upd.Providers = []string{provs[rng.Intn(len(provs))].Addr.String(), provs[rng.Intn(len(provs))].Addr.String()}
 				if upd.Providers[0] == upd.Providers[1] {
@@ -1768,7 +1785,7 @@ func runService(run *ev.Run, c int, mode string) {
 	} else {
 		for _, n := range []string{"answered", "expired", "hostile-foreign-provider-rejected", "hostile-duplicate-rejected", "hostile-after-expiry-rejected", "hostile-stranger-rejected",
 			"one-shot-removed", "period-checked", "paused-block", "auto-pause", "total-reached", "callback-threshold-met", "callback-threshold-unmet", "empty-batch", "queue-check",
-			"restart-in-idle-gap", "restart-in-idle-gap-less-than-timeout-before-batch", "restart-during-last-batch"} {
+			"restart-in-idle-gap", "restart-in-idle-gap-less-than-timeout-before-batch", "restart-during-last-batch", "one-shot-updated-mid-batch"} {
 			run.Require(n, 1)
 		}
 	}
